@@ -11,8 +11,8 @@ import (
 	"runtime"
 	"sort"
 	"strconv"
+	"strings"
 	"sync"
-	"sync/atomic"
 
 	"verifharness/internal/ev"
 	"verifharness/internal/genlab"
@@ -80,23 +80,133 @@ func (l *local) add(vd Verdict) {
 	l.tallies[k]++
 }
 
-var reported sync.Map // signature -> *int64 (how many witnesses were rendered)
+// ---------------------------------------------------------------- witnesses
 
-func report(r *ev.Run, c Combo, name string, v Value, t Trip, vd Verdict) {
+// cand is one violating case; per signature the three smallest are kept, so
+// that the reported witnesses (and the replay file name) do not depend on the
+// scheduling of the workers.
+type cand struct {
+	size    int
+	key     string
+	c       Combo
+	name    string
+	v       Value
+	t       Trip
+	vd      Verdict
+	cookie  bool
+	summary string
+}
+
+type pool struct {
+	best   map[string][]cand
+	counts map[string]int64
+}
+
+func newPool() *pool { return &pool{best: map[string][]cand{}, counts: map[string]int64{}} }
+
+func candLess(a, b cand) bool {
+	if a.size != b.size {
+		return a.size < b.size
+	}
+	return a.key < b.key
+}
+
+func (p *pool) insert(sig string, x cand) {
+	bs := p.best[sig]
+	if len(bs) == 3 && !candLess(x, bs[2]) {
+		return
+	}
+	for _, b := range bs {
+		if b.key == x.key {
+			return
+		}
+	}
+	bs = append(bs, x)
+	sort.Slice(bs, func(i, j int) bool { return candLess(bs[i], bs[j]) })
+	if len(bs) > 3 {
+		bs = bs[:3]
+	}
+	p.best[sig] = bs
+}
+
+// offer records a violating case (no locking: a pool belongs to one task).
+func (p *pool) offer(c Combo, name string, v Value, t Trip, vd Verdict) {
 	if vd.Sig == "" {
 		return
 	}
-	cnt, _ := reported.LoadOrStore(vd.Sig, new(int64))
-	if atomic.AddInt64(cnt.(*int64), 1) > 8 {
-		// ev keeps the first five witnesses of a signature; only count the rest
-		r.Violate(vd.Sig, "", nil)
+	p.counts[vd.Sig]++
+	// prefer ordinary witnesses: plain name, no empty member, alphanumeric text, then short
+	size := len(name)
+	if !plainName(name) {
+		size += 1000
+	}
+	if v.hasEmptiness() {
+		size += 100
+	}
+	for _, m := range v.members() {
+		size += len(m) + 1
+		for i := 0; i < len(m); i++ {
+			if ch := m[i]; !(ch >= 'a' && ch <= 'z' || ch >= '0' && ch <= '9' || ch >= 'A' && ch <= 'Z') {
+				size += 10
+			}
+		}
+	}
+	size += len(v.Unset)
+	bs := p.best[vd.Sig]
+	if len(bs) == 3 && size > bs[2].size {
 		return
 	}
-	ref := ""
-	if w, ok := refEncode(c.Loc, c.Style, c.Explode, name, v); ok {
-		ref = w.Canon()
+	p.insert(vd.Sig, cand{size: size, key: valueKey(c, name, v), c: c, name: name, v: v, t: t, vd: vd})
+}
+
+var (
+	globalMu   sync.Mutex
+	globalPool = newPool()
+)
+
+func (p *pool) flush() {
+	globalMu.Lock()
+	defer globalMu.Unlock()
+	for sig, n := range p.counts {
+		globalPool.counts[sig] += n
 	}
-	r.Violate(vd.Sig, summary(c, name, v, t, vd, ref), Witness{Combo: c, Name: name, Value: v, Rule: vd.Rule, Reference: ref, Trip: t})
+	for sig, bs := range p.best {
+		for _, b := range bs {
+			globalPool.insert(sig, b)
+		}
+	}
+}
+
+// reportAll hands the kept witnesses to the evidence writer.
+func reportAll(r *ev.Run) {
+	globalMu.Lock()
+	defer globalMu.Unlock()
+	var sigs []string
+	for s := range globalPool.best {
+		sigs = append(sigs, s)
+	}
+	sort.Strings(sigs)
+	total := int64(0)
+	bySig := map[string]int64{}
+	for _, sig := range sigs {
+		for _, b := range globalPool.best[sig] {
+			if b.cookie {
+				r.Violate(sig, b.summary, Witness{Combo: b.c, Name: b.name, Value: b.v, Rule: b.vd.Rule, Trip: b.t, CookieHex: hex.EncodeToString([]byte(b.v.S))})
+				continue
+			}
+			ref := ""
+			if w, ok := refEncode(b.c.Loc, b.c.Style, b.c.Explode, b.name, b.v); ok {
+				ref = w.Canon()
+			}
+			r.Violate(sig, summary(b.c, b.name, b.v, b.t, b.vd, ref), Witness{Combo: b.c, Name: b.name, Value: b.v, Rule: b.vd.Rule, Reference: ref, Trip: b.t})
+		}
+		bySig[sig] = globalPool.counts[sig]
+		total += globalPool.counts[sig]
+	}
+	if total > 0 {
+		r.Count("violating_cases_observed", int(total))
+		r.Set("violating_cases_by_signature", bySig)
+	}
 }
 
 // ---------------------------------------------------------------- parts
@@ -126,13 +236,15 @@ func exhaustivePart(r *ev.Run, col *collector, combos []Combo, z sizes) {
 	ev.Parallel(len(tasks), runtime.NumCPU(), func(i int) {
 		tk := tasks[i]
 		l := &local{combo: tk.c.String()}
+		p := newPool()
 		for j := tk.from; j < tk.to; j++ {
 			v, typed := tk.b.at(j)
 			t, vd := decide(tk.c, defaultName, v, typed)
 			l.add(vd)
-			report(r, tk.c, defaultName, v, t, vd)
+			p.offer(tk.c, defaultName, v, t, vd)
 		}
 		col.merge(l)
+		p.flush()
 		n := tk.to - tk.from
 		r.Eval(n)
 		r.DistinctBulk(int64(n))
@@ -145,6 +257,52 @@ func exhaustivePart(r *ev.Run, col *collector, combos []Combo, z sizes) {
 func valueKey(c Combo, name string, v Value) string {
 	b, _ := json.Marshal(v)
 	return c.String() + "\x00" + name + "\x00" + string(b)
+}
+
+// maybeEnumerated: the value could also be a member of the enumerated blocks
+// (every text is made of alphabet symbols / belongs to the typed lists).
+func maybeEnumerated(c Combo, v Value) bool {
+	switch c.Shape {
+	case "boolean", "object-empty":
+		return true
+	case "integer", "array-integer":
+		for _, m := range v.members() {
+			found := false
+			for _, x := range intDomain {
+				if typedText(x) == m {
+					found = true
+				}
+			}
+			if !found {
+				return false
+			}
+		}
+		return true
+	case "number":
+		for _, x := range numDomain {
+			if typedText(x) == v.S {
+				return true
+			}
+		}
+		return false
+	}
+	all := append(append([]string{}, v.members()...), v.Unset...)
+	for _, m := range all {
+		rest := m
+		for rest != "" {
+			ok := false
+			for _, sy := range symbols {
+				if strings.HasPrefix(rest, sy) {
+					rest, ok = rest[len(sy):], true
+					break
+				}
+			}
+			if !ok {
+				return false
+			}
+		}
+	}
+	return true
 }
 
 func randomPart(r *ev.Run, col *collector, combos []Combo, n int) {
@@ -168,6 +326,8 @@ func randomPart(r *ev.Run, col *collector, combos []Combo, n int) {
 	nt := (n + chunk - 1) / chunk
 	ev.Parallel(nt, runtime.NumCPU(), func(ti int) {
 		ls := map[string]*local{}
+		p := newPool()
+		defer p.flush()
 		for i := ti * chunk; i < (ti+1)*chunk && i < n; i++ {
 			x := cases[i]
 			t, vd := decide(x.c, defaultName, x.v, x.typed)
@@ -177,8 +337,12 @@ func randomPart(r *ev.Run, col *collector, combos []Combo, n int) {
 				ls[x.c.String()] = l
 			}
 			l.add(vd)
-			report(r, x.c, defaultName, x.v, t, vd)
-			r.Case("rnd\x00" + valueKey(x.c, defaultName, x.v))
+			p.offer(x.c, defaultName, x.v, t, vd)
+			if maybeEnumerated(x.c, x.v) {
+				r.Eval(1) // may repeat a case of the enumerated blocks: not counted as distinct
+			} else {
+				r.Case("rnd\x00" + valueKey(x.c, defaultName, x.v))
+			}
 		}
 		for _, l := range ls {
 			col.merge(l)
@@ -189,13 +353,15 @@ func randomPart(r *ev.Run, col *collector, combos []Combo, n int) {
 
 func namesPart(r *ev.Run, col *collector, combos []Combo) {
 	n := 0
+	p := newPool()
+	defer p.flush()
 	for _, c := range combos {
 		l := &local{combo: c.String()}
 		for _, name := range specialNames {
 			for _, v := range nameValues(c) {
 				t, vd := decide(c, name, v, nil)
 				l.add(vd)
-				report(r, c, name, v, t, vd)
+				p.offer(c, name, v, t, vd)
 				r.Case("name\x00" + valueKey(c, name, v))
 				n++
 			}
@@ -207,7 +373,8 @@ func namesPart(r *ev.Run, col *collector, combos []Combo) {
 
 // cookieEscapePart: decode(encode(s)) == s and only cookie-octets on the
 // wire, for every byte string up to maxLen, through the public pair.
-func cookieEscapePart(r *ev.Run, combos []Combo, maxLen int) {
+func cookieEscapePart(r *ev.Run, combos []Combo, maxLen, primLen int) {
+	var overlap int64
 	var cs []Combo
 	for _, c := range combos {
 		if c.Loc == "cookie" && c.Shape == "string" {
@@ -225,22 +392,26 @@ func cookieEscapePart(r *ev.Run, combos []Combo, maxLen int) {
 		if ci > 0 && depth > 2 {
 			depth = 2 // the other admitted cookie/string combinations share the code path
 		}
-		one := func(s string) {
+		one := func(p *pool, s string) {
 			if sig, rule, t := decideCookie(c, s); sig != "" {
-				v := prim(s)
-				r.Violate(sig, fmt.Sprintf("cookie value %q (hex %x): rule: %s; sent %q; decoder error %q decoded %v", s, s, rule, t.WireRaw, t.DecErr, t.Decoded),
-					Witness{Combo: c, Name: defaultName, Value: v, Rule: rule, Trip: t, CookieHex: hex.EncodeToString([]byte(s))})
+				p.counts[sig]++
+				p.insert(sig, cand{size: len(s), key: c.String() + "\x00" + s, c: c, name: defaultName, v: prim(s), t: t, vd: Verdict{Sig: sig, Rule: rule}, cookie: true,
+					summary: fmt.Sprintf("%s cookie value %q (hex %x): rule: %s; sent %q; decoder error %q decoded %v", c.String(), s, s, rule, t.WireRaw, t.DecErr, t.Decoded)})
 			}
 		}
-		one("")
+		p0 := newPool()
+		one(p0, "")
+		p0.flush()
 		n0 := int64(1)
 		ev.Parallel(256, runtime.NumCPU(), func(b0 int) {
 			var n int64
+			p := newPool()
+			defer p.flush()
 			buf := make([]byte, depth)
 			buf[0] = byte(b0)
 			var rec func(pos int)
 			rec = func(pos int) {
-				one(string(buf[:pos]))
+				one(p, string(buf[:pos]))
 				n++
 				if pos == depth {
 					return
@@ -257,9 +428,15 @@ func cookieEscapePart(r *ev.Run, combos []Combo, maxLen int) {
 		})
 		r.Count(fmt.Sprintf("cookie_escape_exhaustive/%s/max_len_%d", c.String(), depth), int(n0))
 		total += n0
+		// values already counted in the enumerated block of this combination
+		for _, s := range stringsUpTo(primLen) {
+			if len(s) <= depth {
+				overlap++
+			}
+		}
 	}
 	r.Eval(int(total))
-	r.DistinctBulk(total)
+	r.DistinctBulk(total - overlap)
 }
 
 func decideCookie(c Combo, s string) (sig, rule string, t Trip) {
@@ -416,7 +593,9 @@ func replay(r *ev.Run, path string) int {
 		ref, _ := refEncode(w.Combo.Loc, w.Combo.Style, w.Combo.Explode, w.Name, w.Value)
 		fmt.Printf("replay %s name=%q value=%s\n  reference wire: %q\n  encoder: panic=%q error=%q\n  wire raw: %q\n  wire unescaped: %q\n  handed to decoder: %q\n  decoder: panic=%q error=%q decoded=%v\n  verdict: tally=%q signature=%q\n",
 			w.Combo, w.Name, w.Value, ref.Canon(), t.EncPanic, t.EncErr, t.WireRaw, t.WireCanon, t.Received, t.DecPanic, t.DecErr, t.Decoded, vd.Tally, vd.Sig)
-		report(r, *w.Combo, w.Name, w.Value, t, vd)
+		if vd.Sig != "" {
+			r.Violate(vd.Sig, summary(*w.Combo, w.Name, w.Value, t, vd, ref.Canon()), Witness{Combo: *w.Combo, Name: w.Name, Value: w.Value, Rule: vd.Rule, Reference: ref.Canon(), Trip: t})
+		}
 	default:
 		fmt.Println("ERROR replay file has no recognised witness")
 		return 2
@@ -445,8 +624,9 @@ func Main(args []string) int {
 	randomPart(r, col, combos, r.N(150000, 1500000))
 	namesPart(r, col, combos)
 	cookieLen := r.N(2, 3)
-	cookieEscapePart(r, combos, cookieLen)
+	cookieEscapePart(r, combos, cookieLen, z.primLen)
 	samplePart(r, combos)
+	reportAll(r)
 
 	// evidence: per combination counters
 	per := map[string]any{}
